@@ -46,8 +46,9 @@ def errEof (pos : Pos) : PErr := mkErr eofMsg pos
 
 theorem mkErr_msg_ne (msg : String) (pos : Pos) : (mkErr msg pos).val.msg ≠ "" := (mkErr msg pos).property.1
 
-/-- message prefix used for the one place where parser.py dies with a host exception
-    (`AttributeError`) instead of a `CklSyntaxError` -/
+/-- (historical) message prefix that marked the one place where the pinned parser.py died with a
+    host exception (`[x for x in y] = 3` → AttributeError); repaired in /repo by 8a1e95e, the model
+    now reports the repaired syntax error -/
 def hostPrefix : String := "HOST AttributeError"
 
 /-! ### lexer state -/
